@@ -216,6 +216,46 @@ def load_findings():
     return json.load(open(p)).get("findings", [])
 
 
+def merge_results(a, b):
+    """merge two harness result objects: numbers add up, dicts merge recursively, lists concatenate"""
+    if a is None:
+        return b
+    if b is None:
+        return a
+    if isinstance(a, bool) or isinstance(b, bool):
+        return a or b
+    if isinstance(a, (int, float)) and isinstance(b, (int, float)):
+        return a + b
+    if isinstance(a, dict) and isinstance(b, dict):
+        out = dict(a)
+        for k, v in b.items():
+            out[k] = merge_results(out.get(k), v) if k in out else v
+        return out
+    if isinstance(a, list) and isinstance(b, list):
+        return a + b
+    return a
+
+
+def run_chunked(ctx, scripts_file, chunk, argv_for, timeout=3000):
+    """Run a replay harness on a script file in pieces of <chunk> lines, one process per piece (every real node a script
+    creates costs file descriptors and goroutines that libp2p only gives back at process exit), and merge the results.
+    argv_for(piece_path, out_path) -> argv.  Returns (merged result or None, last CompletedProcess)."""
+    lines = open(scripts_file).read().splitlines()
+    merged = None; last = None
+    for i in range(0, max(len(lines), 1), chunk):
+        piece = "%s.part%d" % (scripts_file, i // chunk)
+        with open(piece, "w") as fh:
+            fh.write("\n".join(lines[i:i + chunk]) + ("\n" if lines[i:i + chunk] else ""))
+        of = piece + ".res.json"
+        if os.path.exists(of):
+            os.remove(of)
+        last = ctx.run(argv_for(piece, of), timeout=timeout)
+        if not os.path.exists(of):
+            return None, last
+        merged = merge_results(merged, json.load(open(of)))
+    return merged, last
+
+
 def finish(ctx, level, coverage, assumptions=None):
     """Classify violations against known findings, write evidence, print verdict lines, exit."""
     findings = [f for f in load_findings() if f["property"] == ctx.pid]
